@@ -493,7 +493,7 @@ def gen_session(rng, n_calls):
     for _ in range(rng.randint(2, 3)):
         make(_simple_nfa(rng, sigma, used))
     for _ in range(rng.randint(1, 2)):
-        a = genpda.needle_pda(rng) if rng.random() < 0.15 else genpda.abstract_pda(rng, nmax=3, tmax=5)
+        a = genpda.needle_pda(rng) if rng.random() < 0.3 else genpda.abstract_pda(rng, nmax=3, tmax=5)
         s, _r = genfa.rename(a, rng, eps_choices=('_', 'ε'))
         m = dict(zip(sorted(s['Sigma']), sigma + [c for c in 'uvw' if c not in sigma]))
         # keep the session alphabet: map input symbols onto sigma (cyclically)
@@ -543,7 +543,7 @@ def gen_session(rng, n_calls):
                 if e:
                     steps.append({'op': 'edit', 'args': [st['id']], 'edit': e})
             continue
-        if rng.random() < 0.12:
+        if rng.random() < 0.2:
             tc = _text_check(rng, made, sigma)
             if tc:
                 steps.append(tc)
@@ -572,7 +572,9 @@ def gen_session(rng, n_calls):
             kinds[st['id']] = o.out
         steps.append(st)
     call_idx = [i for i, s in enumerate(steps) if s['op'] not in ('make', 'edit')]
-    solo = sorted(rng.sample(call_idx, max(1, len(call_idx) // 3)))
+    solo = set(rng.sample(call_idx, max(1, len(call_idx) // 3)))
+    solo |= {i for i, s in enumerate(steps) if s['op'] == 'text_check'}     # checkers are cheap: every one is re-executed alone
+    solo = sorted(solo)
     return {'sigma': sigma, 'steps': steps, 'solo': solo}
 
 
